@@ -199,10 +199,12 @@ func constPointFindings(x *in, w int64, stop, panicked bool) []finding {
 			expected: "no parameter values make a pacer panic", observed: "panic (integer divide by zero)"}}
 	}
 	switch {
+	case (freq == 0 || per == 0) && (freq < 0 || per < 0):
+		return fs // one field zero, the other negative: the text allows "unlimited" as well as "stop"
 	case freq == 0 || per == 0:
-		if stop || w != 0 {
+		if stop || w > 0 {
 			fs = append(fs, finding{kind: "const_zero_not_unlimited", clause: "zero", what: "zero frequency/unit must mean unlimited rate",
-				expected: "(0, false)", observed: fmt.Sprintf("(%d, %v)", w, stop)})
+				expected: "no wait, no stop", observed: fmt.Sprintf("(%d, %v)", w, stop)})
 		}
 		return fs
 	case freq < 0 || per < 0:
@@ -212,42 +214,15 @@ func constPointFindings(x *in, w int64, stop, panicked bool) []finding {
 		}
 		return fs
 	}
-	if x.Elapsed < 0 {
-		return fs // not an elapsed time; correspondence only
-	}
-	bf, bp := big.NewInt(freq), big.NewInt(per)
-	n1 := new(big.Int).Add(new(big.Int).SetUint64(x.Hits), big.NewInt(1))
-	el := big.NewInt(x.Elapsed)
-	// exact deadline (hits+1)·per/freq and the code's truncated one (hits+1)·⌊per/freq⌋
-	exactNum := new(big.Int).Mul(n1, bp) // / freq
-	trunc := new(big.Int).Mul(n1, big.NewInt(per/freq))
-	max := big.NewInt(math.MaxInt64)
-	if stop {
-		// legitimate only when the deadline overflows int64, (hits+1)·per/freq > MaxInt64,
-		// or the hit counter itself cannot be incremented any more
-		if x.Hits != math.MaxUint64 && exactNum.Cmp(new(big.Int).Mul(max, bf)) <= 0 {
-			fs = append(fs, finding{kind: "const_spurious_stop", clause: "stop", what: "stop although nothing overflows",
-				expected: "a wait", observed: "stop"})
-		}
+	if x.Elapsed < 0 || stop {
+		// a stop is never forbidden for positive parameters; a negative elapsed is not an elapsed time
 		return fs
 	}
-	// value the wait must have: between the truncated-interval value and the exact one (rounded up);
-	// a non-positive wait is also fine whenever the truncated deadline has already passed
-	mTrunc := new(big.Int).Sub(trunc, el)
-	ceilExact := new(big.Int).Add(exactNum, new(big.Int).Sub(bf, big.NewInt(1)))
-	ceilExact.Div(ceilExact, bf)
-	mExact := new(big.Int).Sub(ceilExact, el)
-	bw := big.NewInt(w)
-	okWait := (w <= 0 && mTrunc.Sign() <= 0) || (bw.Cmp(mTrunc) >= 0 && bw.Cmp(mExact) <= 0)
-	if !okWait {
-		fs = append(fs, finding{kind: "const_overflow_guard_off_by_one", clause: "wrap",
-			what:     "arithmetic overflow wraps instead of stopping the attack",
-			expected: fmt.Sprintf("stop, or a wait in [%s, %s]", mTrunc, mExact), observed: fmt.Sprintf("(%d, false)", w),
-			key: map[string]interface{}{"hits_at_guard": per/freq > 0 && x.Hits == uint64(math.MaxInt64/(per/freq))}})
-	}
-	if w > 0 && okWait {
-		// positive wait only when on or ahead of schedule: (hits+1)·per > freq·elapsed
-		if exactNum.Cmp(new(big.Int).Mul(bf, el)) <= 0 {
+	// The text does not fix the wait, only: a positive wait only when the count is on or ahead of the
+	// schedule, (hits+1)·per > freq·elapsed.  (Wrapped values: negativeWait; lower clause: pointContract.)
+	if w > 0 {
+		n1 := new(big.Int).Add(new(big.Int).SetUint64(x.Hits), big.NewInt(1))
+		if new(big.Int).Mul(n1, big.NewInt(per)).Cmp(new(big.Int).Mul(big.NewInt(freq), big.NewInt(x.Elapsed))) <= 0 {
 			fs = append(fs, finding{kind: "const_wait_while_behind", clause: "wait_behind", what: "positive wait although the count is behind the schedule",
 				expected: "wait <= 0", observed: fmt.Sprintf("wait %d", w)})
 		}
@@ -305,6 +280,7 @@ func point(st *streams, s *kit.Summary, x *in, withRate bool) {
 		for _, f := range constPointFindings(x, w, stop, pk) {
 			report(s, x, judged(st, x, f))
 		}
+		pointContract(st, s, x, w, stop, pk)
 		if withRate {
 			_, rl := rateLine(p, x.Elapsed)
 			st.constRate.add(fmt.Sprintf("c01.const.rate %s", x.params()), rl)
@@ -327,7 +303,6 @@ func point(st *streams, s *kit.Summary, x *in, withRate bool) {
 				expected: "stop", observed: fmt.Sprintf("(%d, false)", w)})
 		}
 		waitBehind(s, x, w, stop, pk)
-		hitsOverflow(s, x, w, stop, pk)
 		pointContract(st, s, x, w, stop, pk)
 		s.Case(op, scheduleOf(x) != nil)
 	case "linear":
@@ -335,9 +310,11 @@ func point(st *streams, s *kit.Summary, x *in, withRate bool) {
 		switch {
 		case pk:
 			report(s, x, finding{kind: "linear_panic", clause: "panic", what: "LinearPacer.Pace panicked", expected: "no panic", observed: "panic"})
-		case (x.Freq == 0 || x.Per == 0) && (stop || w != 0):
+		case (x.Freq == 0 || x.Per == 0) && (x.Freq < 0 || x.Per < 0):
+			// one field zero, the other negative: "unlimited" and "stop" are both what the text says
+		case (x.Freq == 0 || x.Per == 0) && (stop || w > 0):
 			report(s, x, finding{kind: "linear_zero_not_unlimited", clause: "zero", what: "zero frequency/unit must mean unlimited rate",
-				expected: "(0, false)", observed: fmt.Sprintf("(%d, %v)", w, stop)})
+				expected: "no wait, no stop", observed: fmt.Sprintf("(%d, %v)", w, stop)})
 		case x.Freq != 0 && x.Per != 0 && (x.Freq < 0 || x.Per < 0) && !stop:
 			report(s, x, finding{kind: "linear_negative_not_stopped", clause: "negative", what: "negative frequency/unit must stop the attack",
 				expected: "stop", observed: fmt.Sprintf("(%d, false)", w)})
@@ -348,7 +325,6 @@ func point(st *streams, s *kit.Summary, x *in, withRate bool) {
 			rateOracle(s, x, x.Elapsed)
 		}
 		waitBehind(s, x, w, stop, pk)
-		hitsOverflow(s, x, w, stop, pk)
 		linearOverflow(st, s, x, w, stop, pk)
 		pointContract(st, s, x, w, stop, pk)
 		s.Case(op, scheduleOf(x) != nil)
